@@ -186,6 +186,33 @@ def check(run):
                     if not pipe.closed_called:
                         run.violation('pipe-not-closed', desc)
                     compare(run, pipe.getvalue(), arrs, fields, desc)
+            # verbose mode reports to stderr only: the pipe carries the same bytes
+            if k % 9 == 2:
+                import contextlib
+
+                pipe = RecordingPipe()
+                errbuf = io.StringIO()
+                run.ev()
+                try:
+                    with contextlib.redirect_stderr(errbuf), contextlib.redirect_stdout(io.StringIO()):
+                        PA.unpack_to_pipe(fns, fields, pipe=pipe, verbose=True)
+                except Exception as e:
+                    run.violation('pipe-raises-' + type(e).__name__, dict(error=str(e)[:200], verbose=True, **desc))
+                else:
+                    compare(run, pipe.getvalue(), arrs, fields, dict(desc, verbose=True))
+                run.count('verbose_invocations')
+            # a terminal as output is refused before anything is written
+            if k % 9 == 5:
+                tty = RecordingPipe()
+                tty.isatty = lambda: True
+                run.ev()
+                try:
+                    PA.unpack_to_pipe(fns, fields, pipe=tty, verbose=False)
+                    run.count('terminal_output_accepted')  # informational: the statement names only missing files / fields as errors
+                except RuntimeError:
+                    run.count('terminal_output_refused')
+                    if tty.getvalue():
+                        run.violation('pipe-bytes-before-error', dict(kind='terminal refused', nbytes=len(tty.getvalue()), **desc))
             # error paths: nothing may be written before the error
             if k % 5 == 0:
                 pos = int(rng.integers(0, nfiles + 1))
